@@ -202,8 +202,8 @@ def instances(tier):
     for ei, element in enumerate(T.ELEMENTS):
         nb = _count(element, 'insertion')
         for b in range(nb):
-            if quick and (b + ei) % stride['insertion'] != 0 and b != nb - 1:      # the last batch holds the end-of-input position
-                continue
+            if quick and (((b + ei) % stride['insertion'] != 0 and b != nb - 1) or (element == 'table' and b == 0)):
+                continue      # (the last batch holds the end-of-input position; table/b0 needs > 280 s: thorough only)
             out.append({'name': f'ins/{element}/b{b}/K1', 'factory': 'insertion', 'params': {'element': element, 'batch': b, 'K': 1},
                         'timeout': T1, 'native_limit': 60})
             if not quick:
